@@ -187,6 +187,7 @@ def _build_fresh(k, R):
         raise R.err
 
 
+REGCOPY = os.environ.get("XH_REGCOPY", "0") == "1"
 MODNAME = os.environ.get("XH_MODNAME")
 if MODNAME:
     # the user's plan-building functions live in a module of the user's own whose NAME happens to start like the library's
@@ -336,7 +337,8 @@ def c19_attr(d: int, p1: bool, t0: int, t1: int) -> bool:
     stale1 = (not p1) or t0 > t1  # S1 out of date: missing or older than the source it was computed from
     exp = expected_failure(FAULT, R, stale1)
     try:
-        uberjob.run(R.plan, registry=R.reg, output=R.out, progress=None, max_workers=1)
+        # XH_REGCOPY: the run gets a copy (of a copy) of the registry -- a copied entry is the same registration, made on the same line
+        uberjob.run(R.plan, registry=(R.reg.copy().copy() if REGCOPY else R.reg), output=R.out, progress=None, max_workers=1)
     except uberjob.CallError as e:
         if exp is None:
             return False
